@@ -220,7 +220,10 @@ def texts(draw):
     src = draw(st.sampled_from(["gen", "gen", "enc", "enc", "mutant"]))
     if src == "mutant":
         from props import c07
-        return draw(c07.mutants()), src
+        t = draw(c07.mutants())
+        if draw(st.integers(0, 9)) == 0:
+            t = "\ufeff" + t
+        return t, src
     if src == "gen":
         d = draw(st.sampled_from(["default", "PVL", "ODL", "PDS3", "PDS3", "PDS3"]))
         doc = draw(gt.documents(d, min_statements=1))
@@ -282,6 +285,9 @@ EXTRA_TEXTS = [
     "GROUP = g\nEND_GROUP\nGROUP = g\nEND_GROUP\n", "a = ()\nb = {}\nc = (())\nEND\n",
     "Object = o\n Object = p\n  Group = q\n  End_Group\n End_Object\nEnd_Object\nEnd\n",
     "", "END", "/* only a comment */", "a = 1;;\n", "x = \"\"\ny = ''\n",
+    # a byte order mark as the first character of the text
+    "\ufeffa = 1\nEND\n", "\ufeffObject = o\n x = 1\nEnd_Object\n", "\ufeff\nb = 2\n",
+    "\ufeff/* c */ c = 3\n", "\ufeffEnd",
     # names that are not in Unicode NFC (a combining mark, a singleton such as OHM SIGN)
     "Tempe\u0301rature = 21.5 <degC>\nEND\n", "R_\u2126 = 50\nEND\n",
     "GROUP = a\u030a\n x\u0301 = 1\nEND_GROUP\n", "\u212b = \"\u00c5\"\n",
